@@ -1,0 +1,110 @@
+//go:build verif
+
+package ports
+
+import (
+	"github.com/fatedier/frp/pkg/config/types"
+	"github.com/fatedier/frp/verif"
+)
+
+//verif:guarded Manager mu reservedPorts usedPorts freePorts
+
+// Monitor invariant of the port table (C09: "no two live proxies own the same
+// port"; "accounting equals what is bound"): a port is never free and used at
+// once, and every used port has a context.
+//
+//verif:invariant Manager mu
+func (pm *Manager) verifInvPorts(q int) bool {
+	_, free := pm.freePorts[q]
+	ctx, used := pm.usedPorts[q]
+	return !(free && used) && (!used || ctx != nil) &&
+		(!(free || used) || (q >= MinPort && q <= MaxPort)) &&
+		pm.freePorts != nil && pm.usedPorts != nil && pm.reservedPorts != nil
+}
+
+//verif:invariant Manager mu
+func (pm *Manager) verifInvReserved(n string) bool {
+	ctx, ok := pm.reservedPorts[n]
+	return !ok || ctx != nil
+}
+
+// isPortAvailable is the OS probe: an oracle with no effect on the tables.
+//
+//verif:contract (*~/server/ports.Manager).isPortAvailable
+//verif:props C09
+func verif_isPortAvailable(pm *Manager, port int) {
+	pm.isPortAvailable(port)
+}
+
+// Acquire: success hands out a port that was free (hence allowed and owned by
+// nobody), moves it from free to used, honours a fixed request; failure
+// changes neither table.
+//
+//verif:contract (*~/server/ports.Manager).Acquire
+//verif:props C09 C10
+func verif_Acquire(pm *Manager, name string, port int, q int) {
+	free0 := verif.Snap(pm.freePorts)
+	used0 := verif.Snap(pm.usedPorts)
+	realPort, err := pm.Acquire(name, port)
+	if err == nil {
+		verif.Ensures(verif.Has(free0, realPort), "ok_was_free")
+		verif.Ensures(!verif.Has(used0, realPort), "ok_was_unowned")
+		verif.Ensures(!verif.Has(pm.freePorts, realPort), "ok_not_free_after")
+		verif.Ensures(verif.Has(pm.usedPorts, realPort), "ok_used_after")
+		verif.Ensures(port == 0 || realPort == port, "ok_fixed_port_honoured")
+		verif.Ensures(realPort >= MinPort && realPort <= MaxPort, "ok_in_range")
+		if q != realPort {
+			verif.Ensures(verif.Has(pm.freePorts, q) == verif.Has(free0, q), "ok_frame_free")
+			verif.Ensures(verif.Has(pm.usedPorts, q) == verif.Has(used0, q), "ok_frame_used")
+			verif.Ensures(pm.usedPorts[q] == used0[q], "ok_frame_owner")
+		}
+	} else {
+		verif.Ensures(verif.Has(pm.freePorts, q) == verif.Has(free0, q), "err_frame_free")
+		verif.Ensures(verif.Has(pm.usedPorts, q) == verif.Has(used0, q), "err_frame_used")
+		verif.Ensures(pm.usedPorts[q] == used0[q], "err_frame_owner")
+		if port != 0 {
+			verif.Ensures(verif.Implies(verif.Has(used0, port), err == ErrPortAlreadyUsed), "err_kind_used")
+			verif.Ensures(verif.Implies(!verif.Has(used0, port) && !verif.Has(free0, port), err == ErrPortNotAllowed), "err_kind_notallowed")
+		}
+	}
+}
+
+// Release: a used port becomes free again (immediately available); anything
+// else is left alone.
+//
+//verif:contract (*~/server/ports.Manager).Release
+//verif:props C09 C10
+func verif_Release(pm *Manager, port int, q int) {
+	free0 := verif.Snap(pm.freePorts)
+	used0 := verif.Snap(pm.usedPorts)
+	pm.Release(port)
+	if verif.Has(used0, port) {
+		verif.Ensures(verif.Has(pm.freePorts, port), "released_is_free")
+		verif.Ensures(!verif.Has(pm.usedPorts, port), "released_not_used")
+	}
+	if q != port || !verif.Has(used0, port) {
+		verif.Ensures(verif.Has(pm.freePorts, q) == verif.Has(free0, q), "frame_free")
+		verif.Ensures(verif.Has(pm.usedPorts, q) == verif.Has(used0, q), "frame_used")
+	}
+}
+
+// NewManager establishes the monitor invariant: nothing used or reserved, and
+// every free port lies within 1..65535.
+//
+//verif:contract ~/server/ports.NewManager
+//verif:props C09
+func verif_NewManager(netType string, bindAddr string, allowPorts []types.PortsRange, q int, n string) {
+	pm := NewManager(netType, bindAddr, allowPorts)
+	verif.Ensures(pm != nil, "nonnil")
+	verif.Ensures(pm.verifInvPorts(q), "establishes_inv_ports")
+	verif.Ensures(pm.verifInvReserved(n), "establishes_inv_reserved")
+	verif.Ensures(!verif.Has(pm.usedPorts, q), "nothing_used")
+}
+
+//verif:loop ~/server/ports.NewManager 1 inv=verifLoopNewManager args=pm
+//verif:loop ~/server/ports.NewManager 2 inv=verifLoopNewManager args=pm
+//verif:loop ~/server/ports.NewManager 3 inv=verifLoopNewManager args=pm
+func verifLoopNewManager(pm *Manager, q int) bool {
+	_, free := pm.freePorts[q]
+	return !free || (q >= MinPort && q <= MaxPort)
+}
